@@ -575,6 +575,7 @@ fn op_arb_eval_nested<T: Num + Evaluate + for<'a> arbitrary::Arbitrary<'a>>(c: &
                 o.push(pw.evaluate(x).to_bits());
                 o.push(ev.evaluate(x).to_bits());
             }
+            xs.retain(|x| !x.is_nan());
             xs.sort_by(|a, b| a.partial_cmp(b).unwrap_or(std::cmp::Ordering::Equal));
             for (x, r) in xs.iter().zip(pw.evaluate_v(xs.clone())) {
                 o.push(pw.evaluate(*x).to_bits());
@@ -612,6 +613,7 @@ fn op_arb_eval<T: Num + Evaluate + for<'a> arbitrary::Arbitrary<'a>>(c: &Value) 
                 o.push(pw.evaluate(x).to_bits());
                 o.push(ev.evaluate(x).to_bits());
             }
+            xs.retain(|x| !x.is_nan());
             xs.sort_by(|a, b| a.partial_cmp(b).unwrap_or(std::cmp::Ordering::Equal));
             for (x, r) in xs.iter().zip(pw.evaluate_v(xs.clone())) {
                 o.push(pw.evaluate(*x).to_bits());
@@ -652,16 +654,25 @@ fn op_approx_polyn(c: &Value) -> Vec<u64> {
     let rel = f(c["rel"].as_u64().unwrap());
     vec![a.abs_diff_eq(&b, eps) as u64, a.relative_eq(&b, eps, rel) as u64, (a == b) as u64]
 }
-fn op_approx_defaults(_c: &Value) -> Vec<u64> {
-
+fn defaults_of<T: approx::AbsDiffEq<Epsilon = f64> + approx::RelativeEq>(_c: &Value) -> Vec<u64> {
+    vec![<T as AbsDiffEq>::default_epsilon().to_bits(), <T as RelativeEq>::default_max_relative().to_bits()]
+}
+fn defaults_of_pw<T: PartialEq + approx::AbsDiffEq<Epsilon = f64> + approx::RelativeEq>(_c: &Value) -> Vec<u64> {
     vec![
-        <Poly3 as AbsDiffEq>::default_epsilon().to_bits(),
-        <Poly3 as RelativeEq>::default_max_relative().to_bits(),
-        <Piecewise<Poly3> as AbsDiffEq>::default_epsilon().to_bits(),
-        <Piecewise<Poly3> as RelativeEq>::default_max_relative().to_bits(),
-        <IntOfLogPoly4 as AbsDiffEq>::default_epsilon().to_bits(),
-        <Segment<Log<Poly2>> as RelativeEq>::default_max_relative().to_bits(),
+        <Piecewise<T> as AbsDiffEq>::default_epsilon().to_bits(),
+        <Piecewise<T> as RelativeEq>::default_max_relative().to_bits(),
     ]
+}
+// default tolerances of the type named in the case (value types, Segment<..>, Piecewise<..>, PolyN)
+fn op_approx_defaults(c: &Value) -> Vec<u64> {
+    let ty = c.get("ty").and_then(|t| t.as_str()).unwrap_or("Poly3");
+    if ty == "PolyN" {
+        return defaults_of::<PolyN>(c);
+    }
+    if let Some(inner) = ty.strip_prefix("Piecewise<").and_then(|r| r.strip_suffix('>')) {
+        return t_all!(inner; defaults_of_pw(c));
+    }
+    t_seg_all!(ty; defaults_of(c))
 }
 
 // libm table: ln / exp of every candidate argument, computed with the same f64 calls
